@@ -74,7 +74,7 @@ SPEC = streamcheck.StreamSpec(
                         reps=[1, 2, 2, 3], p_regrep=0.25, p_setreg=0.06, p_huge=0.04),
     n_quick=1200, n_thorough=40000,
     nontrivial=nontrivial,
-    pysem=dict(groups=[], effects=True),
+    pysem=dict(groups=['facade'], effects=True),
     extra_check=libclause.c06_library,
     extra_programs=forced,
     rule='random build programs with nesting <= 4 and counts 1-3 at every level (fixed and registry-provided); at every '
